@@ -226,6 +226,21 @@ class NativeCtx:
             x = float(v['real'])
         return self._reg(name, x)
 
+    def _f(self, v):
+        if 'f64bits' in v:
+            return struct.unpack('<d', struct.pack('<Q', v['f64bits']))[0]
+        return float(v['real'])
+
+    def floats(self, name, n, kind='list', finite=False):
+        v = [self._f(x) for x in self._val(name)]
+        return self._reg(name, tuple(v) if kind == 'tuple' else v)
+
+    def get(self, name):
+        return self.ns.get(name)
+
+    def uf_summary(self, ref, helper, ret_lo=None, ret_hi=None, note=''):
+        self.ns[helper] = resolve(ref)
+
     def bytes(self, name, n):
         return self._reg(name, bytes(self._val(name)))
 
@@ -374,6 +389,21 @@ class NativeCtx:
         ns['same_float'] = same_float
         ns['fp16_value'] = lambda x: struct.unpack('<e', struct.pack('<H', x))[0]
         ns['f32'] = lambda x: struct.unpack('<f', struct.pack('<f', x))[0]
+        def fits_f32(x):
+            try:
+                struct.pack('<f', x)
+                return True
+            except OverflowError:
+                return False
+
+        def fits_mm16(v):
+            try:
+                return -32768 <= int(v * 1000) <= 32767
+            except (ValueError, OverflowError):
+                return False
+        ns['fits_f32'] = fits_f32
+        ns['mm'] = lambda x: int(x * 1000)
+        ns['fits_mm16'] = fits_mm16
         ns['pack'] = struct.pack
         ns['unpack'] = struct.unpack
         ns['forall'] = lambda it, f: all(f(x) for x in it)
@@ -426,5 +456,7 @@ def run_job(job):
 
 if __name__ == '__main__':
     job = json.load(sys.stdin)
+    real_stdout = sys.stdout
+    sys.stdout = sys.stderr         # the library prints warnings; keep the report channel clean
     rep = run_job(job)
-    json.dump(rep, sys.stdout)
+    json.dump(rep, real_stdout)
